@@ -1,13 +1,18 @@
 (* Properties/C06.v — After faults stop, sharding recovers: nothing stuck, nothing unscraped. *)
 From KV Require Import Base.Util Base.AMap Base.Sched Gen.Consts Model.Coordinator Model.CoordCheck Model.Sidecar Model.World
-                       Proofs.CoordBasics Proofs.SidecarProofs Proofs.WorldProofs Proofs.WorldNoGap Proofs.CoordHandover.
+                       Proofs.CoordBasics Proofs.SidecarProofs Proofs.WorldProofs Proofs.WorldNoGap Proofs.CoordHandover Proofs.CoordStable Proofs.WorldConverge Proofs.WorldRecover.
 Local Open Scope list_scope.
 Local Open Scope Z_scope.
 
-(* STATUS.  "Fault-free operation returns to the converged state within a bounded number of cycles" inherits the status
-   of C03 (its convergence is not one theorem here).  What is specific to faults is proved: every fault keeps every
-   sidecar well formed, so the fault-free analysis starts from a state of the same kind as any other; and the two
-   states that faults produce and the original code could never leave are left by one cycle. Recovery itself is
+(* STATUS.  "Fault-free operation returns to the converged state within a bounded number of cycles" is ONE THEOREM in the
+   regime without relief and consolidation (alleviation disabled, idle time-out 0): C06_recovers_after_faults - after ANY
+   history of cycles with faults (lost updates, unreachable / unready / out-of-sync shards) under any iteration order,
+   scrape rounds, ticks, sidecar restarts and changes of the discovered set, max(2, max-shard - shards + 1) calm rounds
+   make the world clean and every eligible discovered target held by exactly one shard in normal state, unless max-shard is
+   reached; it rests on C06_invariants_kept_by_every_history (every such step keeps the sidecars well formed, their store
+   in step, the sizes non-negative) and the C03 convergence theorem.  Outside that regime it inherits the status of C03.
+   Also proved, for all options: every fault keeps every sidecar well formed, no held target is lost by any history, and
+   the two states that faults produce and the original code could never leave are left by one cycle.  Recovery is also
    validated on the real closed loop with injected faults (engine `loop`). *)
 
 (* faults are world steps: a lost target update, an unreachable / unready / out-of-sync shard during a cycle (any
@@ -131,3 +136,53 @@ Theorem C06_one_copy_left_after_one_walk : forall o active w h cw p,
   forall j, j <> w -> si_ok (nth_si p j) = true -> afind h (scr_of (nth_si (gc o active p) j)) = None.
 Proof. exact gc_leaves_the_best_copy. Qed.
 Print Assumptions C06_one_copy_left_after_one_walk.
+
+(* ================================================================== recovery, as one theorem, in the regime without relief
+   and consolidation (see Properties/C03.v for calm_round_with, regime, eligible, wclean) *)
+Theorem C06_invariants_kept_by_every_history : forall o tru, regime o -> tpos tru -> forall steps w, winv o w -> wpos2 w ->
+  winv o (fold_left (hist_step o tru) steps w) /\ wpos2 (fold_left (hist_step o tru) steps w).
+Proof. exact history_keeps_invariants. Qed.
+Print Assumptions C06_invariants_kept_by_every_history.
+
+Theorem C06_recovers_after_faults : forall o tru steps schs w0, regime o -> 0 <= max_head o -> tpos tru ->
+  winv o w0 -> wpos2 w0 ->
+  let w := fold_left (hist_step o tru) steps w0 in
+  NoDup (w_active w) ->
+  (2 <= length schs)%nat -> (Z.to_nat (max_shard o - Z.of_nat (length (w_shards w))) < length schs)%nat ->
+  let w' := fold_left (calm_round_with o tru) schs w in
+  wclean w' /\
+  forall h, In h (w_active w) -> eligible o tru h ->
+    Z.of_nat (length (w_shards w')) = max_shard o \/
+    exists k, (k < length (w_shards w'))%nat /\
+      (exists e, afind h (status_at w' k) = Some e /\ ss_state e = Normal) /\
+      forall j, j <> k -> (j < length (w_shards w'))%nat -> afind h (status_at w' j) = None.
+Proof. exact recovers_after_faults. Qed.
+Print Assumptions C06_recovers_after_faults.
+
+(* non-vacuity: a started replica of two empty shards, three discovered targets; a cycle whose update to shard 0 is lost
+   and in which shard 1 is unreachable, a scrape round, a restart of shard 0, a cycle in which shard 0 refuses the
+   configuration - target 12 is held nowhere; then four calm rounds *)
+Definition fx_opts : opts := {| max_head := 0; max_proc := 100; max_shard := 4; min_shard := 1; max_idle := 0; disable_alleviate := true |}.
+Definition fx_truth : amap truth :=
+  [(10%N, {| tr_job := 0; tr_series := 20; tr_total := 20; tr_healthy := true |});
+   (11%N, {| tr_job := 0; tr_series := 30; tr_total := 40; tr_healthy := true |});
+   (12%N, {| tr_job := 1; tr_series := 40; tr_total := 40; tr_healthy := true |})].
+Definition fx_w0 : world := {| w_shards := [fresh_shard 0; fresh_shard 0]; w_active := [10%N; 11%N; 12%N]; w_now := 0 |}.
+Definition fx_hist : list (lstep * list nat) :=
+  [ (LCycle {| f_post_lost := [0%nat]; f_unreachable := [1%nat]; f_not_ready := []; f_stale := [] |}, []);
+    (LScrapeAll 3, []); (LRestart 0, []);
+    (LCycle {| f_post_lost := []; f_unreachable := []; f_not_ready := []; f_stale := [0%nat] |}, [1%nat; 0%nat]) ].
+Example C06_recovers_example :
+  regime fx_opts /\ winv fx_opts fx_w0 /\ wpos2 fx_w0 /\
+  let w := fold_left (hist_step fx_opts fx_truth) fx_hist fx_w0 in
+  let w' := fold_left (calm_round_with fx_opts fx_truth) [[]; []; []; []] w in
+  NoDup (w_active w) /\ (Z.to_nat (max_shard fx_opts - Z.of_nat (length (w_shards w))) < 4)%nat /\
+  map (fun s => map (fun kv => (fst kv, ss_state (snd kv))) (sc_status (ws_sc s))) (w_shards w) <>
+  map (fun s => map (fun kv => (fst kv, ss_state (snd kv))) (sc_status (ws_sc s))) (w_shards w') /\
+  map (fun s => map (fun kv => fst kv) (sc_status (ws_sc s))) (w_shards w') = [[12%N]; [11%N; 10%N]].
+Proof.
+  split; [constructor; cbn; try reflexivity; lia|].
+  split. { constructor; [repeat constructor; apply wf_fresh | repeat constructor | cbn; lia]. }
+  split. { intros [|[|[|k]]]; (split; [intros h e H; discriminate|intros t []]). }
+  vm_compute. repeat split; try lia; try (repeat constructor; cbn; intuition discriminate); try discriminate.
+Qed.
